@@ -777,6 +777,10 @@ class EbuildProcessor:
             lines.append(f"export {' '.join(exported)}")
         return "\n".join(lines)
 
+    def _wire_size(self, data):
+        """Size of data as the daemon counts it: bytes on the pipe (it runs in the C locale)."""
+        return len(data.encode(self.ebd_write.encoding or "utf8", "surrogateescape"))
+
     @staticmethod
     def _quote_env_value(val):
         """Quote a string so that bash reads back exactly that string."""
@@ -809,7 +813,8 @@ class EbuildProcessor:
             self.write(f"start_receiving_env file {path}")
         else:
             self.write(
-                f"start_receiving_env bytes {len(data)}\n{data}", append_newline=False
+                f"start_receiving_env bytes {self._wire_size(data)}\n{data}",
+                append_newline=False,
             )
         os.umask(old_umask)
         return self.expect("env_received", async_req=async_req, flush=True)
@@ -842,7 +847,9 @@ class EbuildProcessor:
         # filter here, so that a screwy default doesn't result in resetting it
         # every time.
         data = os.pathsep.join(filter(None, paths))
-        self.write(f"set_metadata_path {len(data)}\n{data}", append_newline=False)
+        self.write(
+            f"set_metadata_path {self._wire_size(data)}\n{data}", append_newline=False
+        )
         if self.expect("metadata_path_received", flush=True):
             self._metadata_paths = paths
 
@@ -857,7 +864,7 @@ class EbuildProcessor:
 
         env = expected_ebuild_env(package_inst, env, depends=True)
         data = self._generate_env_str(env)
-        self.write(f"{command} {len(data)}\n{data}", append_newline=False)
+        self.write(f"{command} {self._wire_size(data)}\n{data}", append_newline=False)
 
         updates = None
         if self._eclass_caching:
